@@ -409,6 +409,16 @@ func concretise(sc *authScenario, variant int) (*concreteAuth, error) {
 		case "self":
 			return strp(sender)
 		case "other_user":
+			// the class is "starts with '@' and is not the sender": a full user ID of somebody else, and strings
+			// that are no user IDs at all (the rule speaks of the first character only)
+			switch variant % 4 {
+			case 1:
+				return strp("@carolx")
+			case 2:
+				return strp("@")
+			case 3:
+				return strp(sender + "x")
+			}
 			if ev.Sender == "carol" {
 				return strp(userIDs["bob"])
 			}
